@@ -23,3 +23,10 @@ class EvalStack:
 
     def replace_top(self, value):
         self._stack[-1] = value
+
+    def size(self):
+        return len(self._stack)
+
+    def truncate(self, size):
+        while len(self._stack) > size:
+            self._stack.pop()
